@@ -19,7 +19,11 @@ def encode(obj):
 
 
 def decode(cache, records_per_chunk):
-    partially_decoded = json.loads(cache, object_hook=postprocess)
+    try:
+        partially_decoded = json.loads(cache, object_hook=postprocess)
+    except json.JSONDecodeError as e:
+        # e.g. a cache file left behind by an interrupted write: treat it as unusable
+        raise CachingError(f"cannot decode the cache: {e}") from e
 
     return decode_hierarchy(partially_decoded, records_per_chunk=records_per_chunk)
 
